@@ -194,3 +194,84 @@ Proof. intros Hok H. apply ref_name_sound; auto. Qed.
 Lemma ref_decode_none msg off : bytes_ok msg ->
   ref_decode msg off = None -> forall ls next, ~ name_at msg off ls next.
 Proof. intros Hok H ls next Hn. apply ref_decode_iff in Hn; auto. congruence. Qed.
+
+(* ------------------------------------------------------------------ *)
+(* Classes of malformed names: none of them is a name *)
+
+Ltac same_byte :=
+  repeat match goal with
+         | A : nth_error ?m ?o = Some ?x, B : nth_error ?m ?o = Some ?y |- _ =>
+             assert (x = y) by congruence; subst; clear B
+         end.
+
+Lemma no_name_beyond (msg : bytes) off : (length msg <= off)%nat -> forall ls next, ~ name_at msg off ls next.
+Proof.
+  intros H ls next Hn. apply nth_error_None in H. inversion Hn; subst; congruence.
+Qed.
+
+Lemma no_name_reserved (msg : bytes) off (c : byte) : nth_error msg off = Some c -> 64 <= c -> c < 192 ->
+  forall ls next, ~ name_at msg off ls next.
+Proof.
+  intros H H1 H2 ls next Hn. inversion Hn; subst; same_byte; lia.
+Qed.
+
+Lemma no_name_label_truncated (msg : bytes) off (c : byte) : nth_error msg off = Some c -> 1 <= c -> c <= 63 ->
+  (length msg < off + 1 + N.to_nat c)%nat -> forall ls next, ~ name_at msg off ls next.
+Proof.
+  intros H H1 H2 H3 ls next Hn. inversion Hn; subst; same_byte; lia.
+Qed.
+
+Lemma no_name_ptr_truncated (msg : bytes) off (c : byte) : nth_error msg off = Some c -> 192 <= c ->
+  nth_error msg (S off) = None -> forall ls next, ~ name_at msg off ls next.
+Proof.
+  intros H H1 H2 ls next Hn. inversion Hn; subst; same_byte; try lia; congruence.
+Qed.
+
+(* one step of the walk: over a label, or along a pointer *)
+Inductive step (msg : bytes) : nat -> nat -> Prop :=
+| St_label : forall off c, nth_error msg off = Some c -> 1 <= c -> c <= 63 ->
+    step msg off (off + 1 + N.to_nat c)
+| St_ptr : forall off c1 c2, nth_error msg off = Some c1 -> 192 <= c1 -> nth_error msg (S off) = Some c2 ->
+    step msg off (N.to_nat ((c1 - 192) * 256 + c2)).
+
+Inductive steps (msg : bytes) : nat -> nat -> nat -> Prop :=
+| Ss_0 : forall off, steps msg 0 off off
+| Ss_S : forall k a b c, step msg a b -> steps msg k b c -> steps msg (S k) a c.
+
+Lemma name_at_n_step msg n off ls next off' : name_at_n msg n off ls next -> step msg off off' ->
+  exists m ls' next', n = S m /\ name_at_n msg m off' ls' next'.
+Proof.
+  intros Hn Hs. inversion Hs; subst; inversion Hn; subst;
+    repeat match goal with
+           | A : nth_error ?m ?o = Some ?x, B : nth_error ?m ?o = Some ?y |- _ =>
+               assert (x = y) by congruence; subst; clear B
+           end; try lia; eauto.
+Qed.
+
+Lemma name_at_n_steps msg k : forall n off ls next off', name_at_n msg n off ls next -> steps msg k off off' ->
+  exists m ls' next', n = (k + m)%nat /\ name_at_n msg m off' ls' next'.
+Proof.
+  induction k as [|k IH]; intros n off ls next off' Hn Hs; inversion Hs; subst.
+  - exists n, ls, next. auto.
+  - destruct (name_at_n_step _ _ _ _ _ _ Hn H0) as (m & ls' & nx' & -> & Hm).
+    destruct (IH _ _ _ _ _ Hm H1) as (m' & ls'' & nx'' & -> & Hm').
+    exists m', ls'', nx''. split; [lia|exact Hm'].
+Qed.
+
+(* a compression loop (the walk returns to an offset it has visited) is not a name;
+   nor is anything that leads into one *)
+Theorem no_name_loop msg off k : (1 <= k)%nat -> steps msg k off off ->
+  forall ls next, ~ name_at msg off ls next.
+Proof.
+  intros Hk Hs ls next Hn. apply name_at_name_at_n in Hn as [n Hn].
+  destruct (name_at_n_steps _ _ _ _ _ _ _ Hn Hs) as (m & ls' & nx' & E & Hm).
+  pose proof (name_at_n_det _ _ _ _ _ Hn _ _ _ Hm). lia.
+Qed.
+
+Theorem no_name_into msg off off' k : steps msg k off off' ->
+  (forall ls next, ~ name_at msg off' ls next) -> forall ls next, ~ name_at msg off ls next.
+Proof.
+  intros Hs Hno ls next Hn. apply name_at_name_at_n in Hn as [n Hn].
+  destruct (name_at_n_steps _ _ _ _ _ _ _ Hn Hs) as (m & ls' & nx' & E & Hm).
+  apply name_at_n_name_at in Hm. eapply Hno; eauto.
+Qed.
